@@ -398,6 +398,7 @@ impl<C: Config> Engine<C> {
         &self,
         computing: &QueryComputing,
         target: &QueryID,
+        visited: &mut fxhash::FxHashMap<QueryID, bool>,
     ) -> bool {
         if computing.callee_info.callee_queries.contains_sync(target) {
             computing
@@ -407,20 +408,42 @@ impl<C: Config> Engine<C> {
             return true;
         }
 
+        // collect the callees first: recursing while iterating would re-enter
+        // the same map when the computing queries already form a cycle
+        let mut callees = Vec::new();
+        computing.callee_info.callee_queries.iter_sync(|k, _| {
+            callees.push(*k);
+            true
+        });
+
         let mut found = false;
 
         // OPTIMIZE: this can be parallelized
-        computing.callee_info.callee_queries.iter_sync(|k, _| {
-            let Some(state) =
-                self.computation_graph.computing.try_get_query_computing(k)
+        for callee in callees {
+            // Computing queries can already form a cycle that does not contain
+            // `target` (queries that were unwound by an earlier cyclic error
+            // stay in computing state until their executor has finished): every
+            // computing query is searched once only, and its answer is reused
+            // when it is reached again through another caller.
+            if let Some(known) = visited.get(&callee) {
+                found |= *known;
+                continue;
+            }
+            visited.insert(callee, false);
+
+            let Some(state) = self
+                .computation_graph
+                .computing
+                .try_get_query_computing(&callee)
             else {
-                return true;
+                continue;
             };
 
-            found |= self.check_cyclic_internal(&state, target);
+            let reaches = self.check_cyclic_internal(&state, target, visited);
+            visited.insert(callee, reaches);
 
-            true
-        });
+            found |= reaches;
+        }
 
         if found {
             computing
@@ -431,14 +454,15 @@ impl<C: Config> Engine<C> {
         found
     }
 
-    /// Checks whether the stack of computing queries contains a cycle
     #[allow(clippy::needless_pass_by_value)]
     pub(super) fn check_cyclic(
         &self,
         running_state: &QueryComputing,
         target: &QueryID,
     ) -> bool {
-        self.check_cyclic_internal(running_state, target)
+        let mut visited = fxhash::FxHashMap::default();
+
+        self.check_cyclic_internal(running_state, target, &mut visited)
     }
 
     pub(super) fn is_query_running_in_scc(
